@@ -52,6 +52,7 @@ type c15Params struct {
 	Shape    string
 	FG, BG   int
 	Tracking bool
+	Int      int // extra handlers in the internal set (they run before the foreground handlers and edit their line too)
 }
 
 var c15Shapes = map[string][2]string{
@@ -74,8 +75,15 @@ func c15Scenario(p c15Params) *explore.Scenario {
 	sc := &explore.Scenario{
 		Family: "line-copy",
 		Name:   fmt.Sprintf("line-copy/%s/fg=%d/bg=%d/track=%v", p.Shape, p.FG, p.BG, p.Tracking),
-		Params: map[string]interface{}{"shape": p.Shape, "fg": p.FG, "bg": p.BG, "tracking": p.Tracking},
+		Params: map[string]interface{}{"shape": p.Shape, "fg": p.FG, "bg": p.BG, "tracking": p.Tracking, "internal": p.Int},
 		Opt:    vx.Options{MaxSteps: 40000},
+	}
+	if p.Int > 0 {
+		sc.Name += fmt.Sprintf("/int=%d", p.Int)
+	}
+	nInt := p.Int
+	if !c15HaveInternal {
+		nInt = 0
 	}
 	expect := map[string]string{}
 	var verb string
@@ -118,6 +126,9 @@ func c15Scenario(p c15Params) *explore.Scenario {
 		}
 		for i := 0; i < p.BG; i++ {
 			c.HandleBG(verb, mk(fmt.Sprintf("bg%d", i)))
+		}
+		for i := 0; i < nInt; i++ {
+			c15HandleInternal(c, verb, mk(fmt.Sprintf("int%d", i)))
 		}
 		var vc *vx.Conn
 		env.ConnSetup = func(x *vx.Conn) { vc = x }
@@ -164,7 +175,7 @@ func c15Scenario(p c15Params) *explore.Scenario {
 				}
 			}
 		}
-		if want := 3 * (p.FG + p.BG); entries != want {
+		if want := 3 * (p.FG + p.BG + nInt); entries != want {
 			fs = append(fs, explore.Finding{Oracle: "delivery-count", Msg: fmt.Sprintf("%d handler invocations, expected %d", entries, want)})
 		}
 		// built-in handlers must have acted on the original line
@@ -187,7 +198,7 @@ func c15Scenario(p c15Params) *explore.Scenario {
 func init() {
 	Register(&Prop{
 		ID:   "C15",
-		Rule: "two consecutive events of each line shape {PING, tagged PRIVMSG, 0/1/2/15 arguments, CTCP, JOIN with tracking} delivered to 1-3 foreground and 0-2 background handlers; every handler records a deep image at entry, edits every argument, tag and field with handler-unique values, and re-reads after yielding; every execution within the deviation budgets; distinct = distinct canonical observation per scenario",
+		Rule: "two consecutive events of each line shape {PING, tagged PRIVMSG, 0/1/2/15 arguments, CTCP, JOIN with tracking} delivered to 1-3 foreground and 0-2 background handlers (and, for five shapes, two more handlers registered in the internal set next to the built-in ones); every handler records a deep image at entry, edits every argument, tag and field with handler-unique values, and re-reads after yielding; every execution within the deviation budgets; distinct = distinct canonical observation per scenario",
 		Assumptions: []string{
 			"interleavings at synchronisation/channel/socket granularity plus explicit yields inside handlers (DESIGN.md 3.8)",
 			"'equal to the parsed event' is judged against ParseLine of the wire text (C01 judges the parser itself)",
@@ -215,6 +226,14 @@ func init() {
 					}
 					jobs = append(jobs, ExploreJob("C15", spec, 10*(h.fg+h.bg)))
 				}
+			}
+			// extra handlers in the internal set (next to the built-in ones), which edit their lines like the others
+			for _, sh := range []string{"ping", "tags", "ctcp", "join", "noargs"} {
+				spec := ExploreSpec{Sc: c15Scenario(c15Params{Shape: sh, FG: 1, BG: 1, Int: 2, Tracking: sh == "join"}), Variants: []int{1, 2, 3}, Budgets: []explore.Budget{{0, 0}, {1, 0}, {2, 0}}, Cache: true}
+				if tier != "thorough" {
+					spec.Shallow = []int{2}
+				}
+				jobs = append(jobs, ExploreJob("C15", spec, 30))
 			}
 			return jobs
 		},
